@@ -11,6 +11,7 @@ import (
 	"fmt"
 	"math"
 	"sort"
+	"strconv"
 	"strings"
 
 	v1 "k8s.io/api/core/v1"
@@ -37,6 +38,60 @@ type acall struct {
 	Kind      string
 	Pod, Node string
 	Groups    []string
+	// Args: everything else the call hands to the cache, as integers (erasure clause: compared between the run of a
+	// program and the run of the same program without its rolled back / discarded parts).
+	//   bind:  received resource type, ReceivedGPU.Count, ReceivedGPU.Portion x 100 (as the BindRequest prints it,
+	//          "%.2f"), accepted GPU memory, accepted resources as the proportion plugin quantifies them
+	//          (cpu, memory, GPUs x 1000), number of DRA claim allocations, number and fingerprint of the
+	//          bind-request annotations
+	//   evict: fingerprints of the action, the preemptor and the message, the eviction gang size
+	//   pipe:  fingerprint of the message
+	Args []int64
+}
+
+// fp is a fingerprint of a string (FNV-1a, 31 bits) so that free text fits the integer argument list.
+func fp(s string) int64 {
+	h := uint32(2166136261)
+	for i := 0; i < len(s); i++ {
+		h ^= uint32(s[i])
+		h *= 16777619
+	}
+	return int64(h & 0x7fffffff)
+}
+
+func rtypeCode(t pod_info.ResourceReceivedType) int64 {
+	switch t {
+	case pod_info.ReceivedTypeNone:
+		return 0
+	case pod_info.ReceivedTypeRegular:
+		return 1
+	case pod_info.ReceivedTypeFraction:
+		return 2
+	case pod_info.ReceivedTypeMigInstance:
+		return 3
+	}
+	return 9
+}
+
+// portion100 is ReceivedGPU.Portion as createBindRequest writes it ("%.2f"), times 100.
+func portion100(f float64) int64 {
+	v, err := strconv.ParseFloat(fmt.Sprintf("%.2f", f), 64)
+	if err != nil {
+		return -1
+	}
+	return int64(math.Round(v * 100))
+}
+
+// accepted renders what a pod carries as the result of NodeInfo.setAcceptedResources: received type, devices,
+// portion x 100, GPU memory, and the quantities the proportion plugin charges for it.
+func accepted(t *pod_info.PodInfo) []int64 {
+	if t.AcceptedResource == nil {
+		return []int64{rtypeCode(t.ResourceReceivedType), -1, -1, -1, -1, -1, -1}
+	}
+	qc := putils.QuantifyResourceRequirements(t.AcceptedResource)
+	return []int64{rtypeCode(t.ResourceReceivedType), t.AcceptedResource.GetNumOfGpuDevices(),
+		portion100(t.AcceptedResource.GpuFractionalPortion()), t.AcceptedResource.GpuMemory(),
+		exact(qc[rs.CpuResource]), exact(qc[rs.MemoryResource]), milli(qc[rs.GpuResource])}
 }
 
 type fcache struct {
@@ -48,24 +103,36 @@ type fcache struct {
 
 func (f *fcache) next() bool { i := f.n; f.n++; return f.fails[i] }
 
-func (f *fcache) Bind(p *pod_info.PodInfo, hostname string, _ map[string]string) error {
-	f.calls = append(f.calls, acall{"bind", string(p.UID), hostname, append([]string{}, p.GPUGroups...)})
+func (f *fcache) Bind(p *pod_info.PodInfo, hostname string, ann map[string]string) error {
+	args := accepted(p)
+	args = append(args, int64(len(p.ResourceClaimInfo.ToSlice())), int64(len(ann)))
+	var kvs []string
+	for k, v := range ann {
+		kvs = append(kvs, k+"="+v)
+	}
+	sort.Strings(kvs)
+	args = append(args, fp(strings.Join(kvs, ";")))
+	f.calls = append(f.calls, acall{"bind", string(p.UID), hostname, append([]string{}, p.GPUGroups...), args})
 	if f.next() {
 		return errors.New("injected bind failure")
 	}
 	return nil
 }
 
-func (f *fcache) Evict(pod *v1.Pod, _ *podgroup_info.PodGroupInfo, _ eviction_info.EvictionMetadata, _ string) error {
-	f.calls = append(f.calls, acall{Kind: "evict", Pod: string(pod.UID)})
+func (f *fcache) Evict(pod *v1.Pod, _ *podgroup_info.PodGroupInfo, md eviction_info.EvictionMetadata, msg string) error {
+	pre := ""
+	if md.Preemptor != nil {
+		pre = md.Preemptor.String()
+	}
+	f.calls = append(f.calls, acall{Kind: "evict", Pod: string(pod.UID), Args: []int64{fp(md.Action), fp(pre), int64(md.EvictionGangSize), fp(msg)}})
 	if f.next() {
 		return errors.New("injected evict failure")
 	}
 	return nil
 }
 
-func (f *fcache) TaskPipelined(t *pod_info.PodInfo, _ string) {
-	f.calls = append(f.calls, acall{"pipe", string(t.UID), t.NodeName, append([]string{}, t.GPUGroups...)})
+func (f *fcache) TaskPipelined(t *pod_info.PodInfo, msg string) {
+	f.calls = append(f.calls, acall{"pipe", string(t.UID), t.NodeName, append([]string{}, t.GPUGroups...), []int64{fp(msg)}})
 	f.next()
 }
 
@@ -124,6 +191,10 @@ type world struct {
 	static map[string]*pod_info.PodInfo // the objects the snapshot was built from (for static attributes only)
 	copies map[string]*pod_info.PodInfo // a clone of every pod as it was when the world was built (cmdSpec.Stale)
 	fresh  int
+	// ledger: per queue, the net amount the allocate / deallocate events of this session carried so far (the
+	// quantified AcceptedResource of the event's task, exactly what the proportion plugin adds to / takes from the
+	// job's queue and its ancestors); read through an own event handler registered after the plugins'
+	ledger map[string]*[3]float64
 }
 
 func newWorld(c cycle.Cluster, fails map[int]bool) *world {
@@ -156,8 +227,125 @@ func newWorld(c cycle.Cluster, fails map[int]bool) *world {
 	for _, q := range w.queueNames() {
 		w.ids.Of("q:" + q)
 	}
+	w.ledger = map[string]*[3]float64{}
+	charge := func(sign float64) func(*framework.Event) {
+		return func(e *framework.Event) {
+			job := w.b.Ssn.ClusterInfo.PodGroupInfos[e.Task.Job]
+			if job == nil {
+				return
+			}
+			qc := putils.QuantifyResourceRequirements(e.Task.AcceptedResource)
+			l := w.ledger[string(job.Queue)]
+			if l == nil {
+				l = &[3]float64{}
+				w.ledger[string(job.Queue)] = l
+			}
+			l[0] += sign * qc[rs.CpuResource]
+			l[1] += sign * qc[rs.MemoryResource]
+			l[2] += sign * qc[rs.GpuResource]
+		}
+	}
+	w.b.Ssn.AddEventHandler(&framework.EventHandler{AllocateFunc: charge(1), DeallocateFunc: charge(-1)})
 	w.stmt = w.b.Ssn.Statement()
 	return w
+}
+
+// finalTerm renders what the erasure clause compares at the end of a run: the full dump, every pod's accepted
+// resources, and the queue ledger.
+func (w *world) finalTerm(d dump) string {
+	var as, ls []kv
+	for _, name := range w.pods {
+		if t := w.pod(name); t != nil {
+			as = append(as, kv{w.ids.Of("p:" + name), u.ListOf(accepted(t), u.Z)})
+		}
+	}
+	for _, q := range w.queueNames() {
+		l := w.ledger[q]
+		if l == nil {
+			l = &[3]float64{}
+		}
+		ls = append(ls, kv{w.ids.Of("q:" + q), res3(l[0], l[1], l[2])})
+	}
+	return fmt.Sprintf("(mkXF %s %s %s)", w.fullDumpTerm(d), amap(as), amap(ls))
+}
+
+func (w *world) xcallsTerm(cs []acall) string {
+	out := make([]string, len(cs))
+	for i, c := range cs {
+		k := map[string]int{"bind": 0, "evict": 1, "pipe": 2}[c.Kind]
+		out[i] = fmt.Sprintf("(mkXC %s %s %s %s %s)", u.Nat(k), u.Pos(w.ids.Of("p:"+c.Pod)), w.nodeOpt(c.Node),
+			core.Groups(w.ids, c.Groups), u.ListOf(c.Args, u.Z))
+	}
+	return u.List(out)
+}
+
+// eraser follows a program and keeps the commands that survive: a Rollback drops everything since the checkpoint it
+// returns to (most recent checkpoint of that value), a Discard everything since the statement began; Checkpoint,
+// Rollback and Discard themselves are dropped.
+type eraser struct {
+	kept []cmdSpec
+	base int     // len(kept) when the current statement began
+	stk  [][2]int // outstanding checkpoints: value, len(kept) when taken (most recent last)
+	ok   bool    // every rollback found its checkpoint and succeeded
+	cut  int     // number of Rollback / Discard commands seen
+	drop int     // commands dropped (without the Checkpoint / Rollback / Discard commands themselves)
+}
+
+func (e *eraser) step(c cmdSpec, failed bool, ret int) {
+	switch c.Kind {
+	case "checkpoint":
+		e.stk = append(e.stk, [2]int{ret, len(e.kept)})
+	case "rollback":
+		e.cut++
+		if failed {
+			e.ok = false
+			return
+		}
+		for i := len(e.stk) - 1; i >= 0; i-- {
+			if e.stk[i][0] == c.Cp {
+				e.drop += len(e.kept) - e.stk[i][1]
+				e.kept = e.kept[:e.stk[i][1]]
+				// the checkpoints that stay outstanding: those with a value <= cp
+				k := 0
+				for _, x := range e.stk {
+					if x[0] <= c.Cp {
+						e.stk[k] = x
+						k++
+					}
+				}
+				e.stk = e.stk[:k]
+				return
+			}
+		}
+		e.ok = false
+	case "discard":
+		e.cut++
+		e.drop += len(e.kept) - e.base
+		e.kept = e.kept[:e.base]
+		e.stk = nil
+	case "commit":
+		e.kept = append(e.kept, c)
+		e.base = len(e.kept)
+		e.stk = nil
+	default:
+		e.kept = append(e.kept, c)
+	}
+}
+
+// runErased runs the surviving commands on a second, identically built session and returns the calls of every Commit
+// (with arguments) and the final state.
+func runErased(w2 *world, kept []cmdSpec) (commits [][]acall, panicked string) {
+	for _, c := range kept {
+		nc := len(w2.fc.calls)
+		_, _, pmsg := w2.exec(c)
+		if pmsg != "" {
+			return commits, c.String() + ": " + pmsg
+		}
+		if c.Kind == "commit" {
+			commits = append(commits, append([]acall{}, w2.fc.calls[nc:]...))
+		}
+	}
+	return commits, ""
 }
 
 func sortedKeys[V any](m map[string]V) []string {
@@ -524,11 +712,47 @@ type result struct {
 	// came later in the same statement
 	ignoredEvict map[string]int
 	ignoredThen  map[string]int
+	// erasure: the program was also run without its rolled back / discarded parts on a second session
+	erased        bool
+	erasedDropped int    // commands dropped by the erasure (not counting Checkpoint / Rollback / Discard)
+	erasedKept    int    // commands of the erased program
+	erasedSkip    string // why no erased run was made (wf programs with a Rollback / Discard only)
+	// a gpu-memory pod was placed on a node, that step was rolled back / discarded, and the pod was placed on a
+	// node whose GPUs have another memory size; "+commit": and that placement was committed
+	heteroReplace string
+	staleCommitted int // shared pods that end Releasing (not virtual) with other GPU groups than in the erased run
+}
+
+// gpuMemOf is the memory of the GPUs of a node of the cluster (0: default).
+func gpuMemOf(c cycle.Cluster, node string) int64 {
+	for _, n := range c.Nodes {
+		if n.Name == node {
+			return n.GpuMem
+		}
+	}
+	return 0
 }
 
 func runCase(c cycle.Cluster, fails map[int]bool, d driver, maxSteps int) result {
 	w := newWorld(c, fails)
 	res := result{kinds: map[string]int{}}
+	// the second, identically built session for the erased run (built while the program runs)
+	var w2 *world
+	built2 := make(chan struct{})
+	if d.wf() {
+		go func() { w2 = newWorld(c, fails); close(built2) }()
+	} else {
+		close(built2)
+	}
+	er := &eraser{ok: true}
+	var commitsP [][]acall
+	// gpu-memory pods: node of the last placement that was rolled back / discarded, per pod
+	type placed struct {
+		node string
+		at   int // len(er.kept) before the placing command
+	}
+	livePlace := map[string]placed{}   // placements of the open statement still in effect
+	abandoned := map[string]map[int64]bool{} // pod -> GPU memory sizes of the nodes of abandoned placements
 	init := w.initTerm()
 	prev := w.dump()
 	d0 := w.fullDumpTerm(prev)
@@ -577,6 +801,48 @@ func runCase(c cycle.Cluster, fails map[int]bool, d driver, maxSteps int) result
 			break
 		}
 		after := int(w.stmt.Checkpoint())
+		// erasure bookkeeping
+		keptBefore := len(er.kept)
+		er.step(*cs, failed, ret)
+		if cs.Kind == "commit" {
+			commitsP = append(commitsP, append([]acall{}, w.fc.calls[nc:]...))
+		}
+		switch cs.Kind {
+		case "allocate", "pipeline":
+			if t := w.pod(cs.Pod); !failed && t != nil && t.IsMemoryRequest() {
+				if ab := abandoned[cs.Pod]; ab != nil {
+					for m := range ab {
+						if m != gpuMemOf(c, cs.Node) && res.heteroReplace == "" {
+							res.heteroReplace = "open"
+						}
+					}
+				}
+				livePlace[cs.Pod] = placed{cs.Node, keptBefore}
+			}
+		case "rollback", "discard":
+			for pod, pl := range livePlace {
+				if pl.at >= len(er.kept) {
+					if abandoned[pod] == nil {
+						abandoned[pod] = map[int64]bool{}
+					}
+					abandoned[pod][gpuMemOf(c, pl.node)] = true
+					delete(livePlace, pod)
+				}
+			}
+		case "commit":
+			if res.heteroReplace == "open" {
+				for pod := range livePlace {
+					if ab := abandoned[pod]; ab != nil {
+						for m := range ab {
+							if m != gpuMemOf(c, livePlace[pod].node) {
+								res.heteroReplace = "committed"
+							}
+						}
+					}
+				}
+			}
+			livePlace = map[string]placed{}
+		}
 		if !failed {
 			switch cs.Kind {
 			case "evict":
@@ -725,7 +991,45 @@ func runCase(c cycle.Cluster, fails map[int]bool, d driver, maxSteps int) result
 	for _, i := range fli {
 		fl = append(fl, u.Nat(i))
 	}
-	res.term = fmt.Sprintf("(KProg (mkPC %s %s %s %s %s))", init, u.List(fl), u.Bool(d.wf()), d0, u.List(steps))
+	<-built2
+	erT := "None"
+	switch {
+	case !d.wf() || er.cut == 0:
+	case res.panicked != "":
+		res.erasedSkip = "panic"
+	case !er.ok:
+		res.erasedSkip = "rollback-without-checkpoint-or-failed"
+	default:
+		finalP := w.finalTerm(prev)
+		w2.ids = w.ids // same names, same numbers (GPU groups included)
+		commitsE, pmsg := runErased(w2, er.kept)
+		if pmsg != "" {
+			res.panicked = "erased run: " + pmsg
+			res.erasedSkip = "panic-in-erased-run"
+			break
+		}
+		var ks []string
+		for _, k := range er.kept {
+			ks = append(ks, w.cmdTerm(k))
+		}
+		cp := make([]string, len(commitsP))
+		for i, x := range commitsP {
+			cp[i] = w.xcallsTerm(x)
+		}
+		ce := make([]string, len(commitsE))
+		for i, x := range commitsE {
+			ce[i] = w.xcallsTerm(x)
+		}
+		erT = fmt.Sprintf("(Some (mkER %s %s %s %s %s))", u.List(ks), u.List(cp), u.List(ce), finalP, w2.finalTerm(w2.dump()))
+		res.erased, res.erasedDropped, res.erasedKept = true, er.drop, len(er.kept)
+		for _, name := range w.pods {
+			a, b := w.pod(name), w2.pod(name)
+			if a != nil && b != nil && a.Status == pod_status.Releasing && !a.IsVirtualStatus && !eqGroups(a.GPUGroups, b.GPUGroups) {
+				res.staleCommitted++
+			}
+		}
+	}
+	res.term = fmt.Sprintf("(KProg (mkPC %s %s %s %s %s %s))", init, u.List(fl), u.Bool(d.wf()), d0, u.List(steps), erT)
 	wfs := "wf"
 	if !d.wf() {
 		wfs = "nonwf"
